@@ -50,6 +50,53 @@ ASSUMPTIONS = [
     "has a non-missing entry",
 ]
 
+# ERROR_PATHS -- every raise / special-case branch / dtype cast / float comparison of the anchored code
+# (cat_to_num_transform.py, fittable_base_transform.py, base_transform.py), the generator kind that reaches it and the
+# oracle key that notices a change ("corr" = the run_history correspondence with coq/Model/CatToNum.v).
+#
+#  site                                                     reached by                               noticed by
+#  -------------------------------------------------------- ---------------------------------------- ---------------------
+#  _fit: tf_train.y is None -> RuntimeError                  malformed fit (2 % of single histories)  corr (OErr)
+#  _fit: no categorical columns -> stats unchanged, return   NOT generated (every world has 1-3 categorical columns;
+#                                                            modelled branch, reviewer note C17-4)    --
+#  _replace_nans: col < 0 is missing; all missing -> raise   missing entries in ~60 % of fits/calls;  value:*, raises:*
+#     (also empty frame); fill with 0 = most frequent        all-missing columns are outside the
+#                                                            quantifier and never generated
+#  _replace_nans: MEAN / ZEROS / unsupported strategy        not reachable from CatToNumTransform     --
+#  _fit: not is_floating_point(y) and y.max() > 1            int labels with max 0 / 1 / 2 / 3 / 5 /  width:*, names:*,
+#     (multiclass decision, num_classes = max + 1)           10 (num_classes 2,3,4,6,11: sanity);     value:*, stats-keys:*
+#                                                            whole-valued FLOAT labels (regression);
+#                                                            only-top-class fits
+#  _fit: F.one_hot(y, K)[:, :-1].float().mean(0)             multiclass fits (int64)                  value:multiclass:*
+#     int32 / int16 / uint8 multiclass labels: one_hot       NOT generated -- clean tree raises RuntimeError; reported
+#     accepts LongTensor only                                 as a finding (pending_fixes/C17-C19-int32-class-labels.diff)
+#  _fit: target[~isnan]; all nan -> ValueError; mean         regression fits with 1-2 nan targets     value:regression:*
+#     over the rest (float cast .float(): float64, int32)    (sanity: fits_with_nan_targets); all-nan
+#                                                            is outside the property (ref: RefErr)
+#  _fit: torch.tensor(COUNT[1]); index_select(count, feat)   counts of a larger table / extra          value:*, fit-raises:*
+#                                                            categories (20 % / 15 %)
+#  _fit: (v + target_mean) / (data_size + 1) in float32      n_train 1..9, counts up to ~12           value:* (1e-6 rel.)
+#  _fit: name clash -> ValueError                            look-alike numerical names (8 %)          no-raise:name-clash,
+#                                                                                                      corr
+#  _fit: copy.copy(col_stats[col]) / compute_col_stats       numerical columns 0..2                    stats-keys:*
+#  forward: not is_fitted -> ValueError                      call before fit (12 %), unfitted          no-raise:unfitted
+#                                                            instance next to fitted ones
+#  _forward: no categorical columns -> return tf             NOT generated (see above)                --
+#  _forward: width from self.num_classes (repaired)          labels none / subset / zeros / bigint /   raises:*, width:*
+#                                                            float / other dtype on the call frame
+#  _forward: max_cat >= len(count) -> RuntimeError           unseen index = len(count) + {0,1,2} (6 %) no-raise:unseen
+#  _forward: torch.cat(...).to(float32) / no numerical       frames with 0 / 1 / 2 numerical columns   numerical-changed:*,
+#     columns -> transformed tensor alone                    (sanity), NaN numerical cells             result-aliased,
+#                                                                                                      result-overwritten
+#  _forward: pop categorical from the COPY's dicts           every call (input snapshot)               source-modified,
+#     (__call__: copy.copy(tf))                                                                        cat-left, not-new
+#  validate() of the result                                  every call                                raises:*
+#  transformed_stats: None -> ValueError                     keys before fit: not generated            --
+#  state_dict (live __dict__) / load_state_dict (update)     direct / deepcopy / torch.save / self /   raises:*, history-
+#                                                            self2 / save..load, also into the same    dependent:*, stats-
+#                                                            object (sanity)                           keys:*
+#  label dtypes: int64 / int32 / float32 / float64           fit: all four (int32 only for max <= 1);  value:*, raises:*
+#                                                            call frames: all four (sanity)
 NUM_NAMES = ["n0", "n1", "num_2"]
 CAT_NAMES = ["c0", "c1", "cat_2", "a", "a_0x", "k_1"]
 
@@ -65,20 +112,25 @@ def fr(v):
 
 
 def gen_labels(rng, task, n, k):
+    """training labels; "dt" is the tensor dtype.  Integer labels with max > 1 (multiclass) are int64 only: F.one_hot
+    rejects other integer dtypes on the clean tree (reported as a finding, not generated)."""
     if task == "regression":
-        vals = [q(Fr(rng.randint(-32, 32), 4)) for _ in range(n)]
+        if rng.chance(0.15):
+            vals = [q(rng.randint(-6, 6)) for _ in range(n)]        # whole-valued float targets
+        else:
+            vals = [q(Fr(rng.randint(-32, 32), 4)) for _ in range(n)]
         if rng.chance(0.12) and n > 1:
             for i in rng.sample(range(n), rng.randint(1, min(2, n - 1))):
                 vals[i] = None
-        return {"t": "float", "v": vals}
+        return {"t": "float", "v": vals, "dt": rng.pick(["float32", "float32", "float64"])}
     if task == "binary":
         vals = [rng.randrange(2) for _ in range(n)]
         if rng.chance(0.25):
-            return {"t": "float", "v": [q(v) for v in vals]}
-        return {"t": "int", "v": vals}
+            return {"t": "float", "v": [q(v) for v in vals], "dt": rng.pick(["float32", "float64"])}
+        return {"t": "int", "v": vals, "dt": rng.pick(["int64", "int64", "int32"])}
     vals = [rng.randrange(k) for _ in range(n)]
     vals[rng.randrange(n)] = k - 1            # the top class is present: num_classes = k
-    return {"t": "int", "v": vals}
+    return {"t": "int", "v": vals, "dt": "int64"}
 
 
 def other_labels(rng, task, n, k, kind, own):
@@ -87,14 +139,16 @@ def other_labels(rng, task, n, k, kind, own):
         return None
     if kind == "own":
         return own
+    idt = rng.pick(["int64", "int64", "int32"])      # the labels of a frame to transform may be of any dtype
     if kind == "subset":                      # only some of the classes (the frame's max label is <= 1)
-        return {"t": "int", "v": [rng.randrange(2) if rng.chance(0.5) else 0 for _ in range(n)]}
+        return {"t": "int", "v": [rng.randrange(2) if rng.chance(0.5) else 0 for _ in range(n)], "dt": idt}
     if kind == "zeros":
-        return {"t": "int", "v": [0] * n}
+        return {"t": "int", "v": [0] * n, "dt": idt}
     if kind == "bigint":                      # labels above the fitted classes
-        return {"t": "int", "v": [rng.randint(0, 9) for _ in range(n)]}
+        return {"t": "int", "v": [rng.randint(0, 9) for _ in range(n)], "dt": idt}
     if kind == "float":
-        return {"t": "float", "v": [q(Fr(rng.randint(-20, 20), 2)) if rng.chance(0.9) else None for _ in range(n)]}
+        return {"t": "float", "v": [q(Fr(rng.randint(-20, 20), 2)) if rng.chance(0.9) else None for _ in range(n)],
+                "dt": rng.pick(["float32", "float64"])}
     raise AssertionError(kind)
 
 
@@ -107,7 +161,7 @@ def frame_of(pool, rows, y):
 
 
 def sel_labels(y, rows):
-    return None if y is None else {"t": y["t"], "v": [y["v"][r] for r in rows]}
+    return None if y is None else dict(y, v=[y["v"][r] for r in rows])
 
 
 BOUNDARIES = ["ntrain1", "one_class", "seen_once", "ntrain1+one_cat"]
@@ -118,7 +172,9 @@ def make_world(rng, cat_names, num_names, task=None, boundary=None):
     boundary: a deliberately hit edge of the quantified dimensions -- a single training row, all training rows of one
     class (binary: all 0 / all 1; multiclass: only the top class; regression: a constant), a category seen once."""
     task = task or rng.pick(["regression", "binary", "multiclass", "multiclass"])
-    k = rng.pick([3, 4]) if task == "multiclass" else 2
+    # num_classes boundaries: 3 is the smallest multiclass problem (max label 2); 6 / 11: integer "regression-like"
+    # labels are a multiclass problem to the transform
+    k = rng.pick([3, 3, 4, 4, 6, 11]) if task == "multiclass" else 2
     P = rng.randint(3, 9)                     # pool rows; the training frame is a prefix (or all) of the pool
     ntrain = P if rng.chance(0.5) else rng.randint(2, P)
     if boundary and boundary.startswith("ntrain1"):
@@ -389,8 +445,9 @@ def build_y(y):
     if y is None:
         return None
     if y["t"] == "float":
-        return torch.tensor([float("nan") if v is None else float(fr(v)) for v in y["v"]], dtype=torch.float32)
-    return torch.tensor(y["v"], dtype=torch.long)
+        return torch.tensor([float("nan") if v is None else float(fr(v)) for v in y["v"]],
+                            dtype=getattr(torch, y.get("dt", "float32")))
+    return torch.tensor(y["v"], dtype=getattr(torch, y.get("dt", "int64")))
 
 
 def build_frame(frame):
@@ -792,7 +849,7 @@ def shrink(case):
                 return None if b is None else {"names": b["names"], "cols": [c[:r] + c[r + 1:] for c in b["cols"]]}
             y = f["y"]
             if y is not None:
-                y = {"t": y["t"], "v": y["v"][:r] + y["v"][r + 1:]}
+                y = dict(y, v=y["v"][:r] + y["v"][r + 1:])
             nf = {"num": cut(f["num"]), "cat": cut(f["cat"]), "y": y}
             if any(all(v < 0 for v in c) for c in nf["cat"]["cols"]):
                 continue
@@ -834,7 +891,8 @@ def stats(cases, obss):
          "fits_with_one_training_row": 0, "fits_with_one_categorical_column_and_one_row": 0,
          "fits_with_a_single_label_value": 0, "fits_multiclass_with_only_the_top_class": 0,
          "fits_with_a_category_seen_once": 0, "fits_with_missing_training_entries": 0,
-         "calls_on_a_category_seen_once": 0}
+         "calls_on_a_category_seen_once": 0, "label_dtypes": {}, "num_classes": {},
+         "fits_with_nan_targets": 0, "fits_with_whole_valued_float_targets": 0}
     for c, o in zip(cases, obss):
         if c is None:
             continue
@@ -856,6 +914,17 @@ def stats(cases, obss):
                 d["fit_errors"] += int(not ob["ok"])
                 fit_order.append(inst)
                 cur_stats[inst] = st["stats"]
+                if f["y"] is not None:
+                    dtk = "fit:" + f["y"].get("dt", "?")
+                    d["label_dtypes"][dtk] = d["label_dtypes"].get(dtk, 0) + 1
+                    if f["y"]["t"] == "int" and max(f["y"]["v"]) > 1:
+                        kk = max(f["y"]["v"]) + 1
+                        d["num_classes"][kk] = d["num_classes"].get(kk, 0) + 1
+                    elif f["y"]["t"] == "int":
+                        d["num_classes"][2] = d["num_classes"].get(2, 0) + 1
+                    d["fits_with_nan_targets"] += int(any(v is None for v in f["y"]["v"]))
+                    d["fits_with_whole_valued_float_targets"] += int(
+                        f["y"]["t"] == "float" and all(v is None or v[1] == 1 for v in f["y"]["v"]))
                 ntr = len(f["cat"]["cols"][0])
                 d["fits_with_one_training_row"] += int(ntr == 1)
                 d["fits_with_one_categorical_column_and_one_row"] += int(ntr == 1 and len(f["cat"]["names"]) == 1)
@@ -883,6 +952,9 @@ def stats(cases, obss):
             elif st["op"] == "call":
                 d["calls"] += 1
                 d["call_errors"] += int(not ob["ok"])
+                if st["frame"]["y"] is not None:
+                    dtk = "call:" + st["frame"]["y"].get("dt", "?")
+                    d["label_dtypes"][dtk] = d["label_dtypes"].get(dtk, 0) + 1
                 d["labels"][st["labels"]] = d["labels"].get(st["labels"], 0) + 1
                 d["rows"][st["rows"]] = d["rows"].get(st["rows"], 0) + 1
                 d["unfitted_calls"] += int(st.get("why") == "unfitted")
@@ -1011,6 +1083,16 @@ def sanity(cases, obss):
               "fits_with_one_categorical_column_and_one_row", "fits_with_a_single_label_value",
               "fits_multiclass_with_only_the_top_class", "fits_with_a_category_seen_once",
               "fits_with_missing_training_entries", "calls_on_a_category_seen_once"):
+        if d[k] == 0:
+            probs.append(f"{k} = 0")
+    for k in ("fit:int64", "fit:int32", "fit:float32", "fit:float64", "call:int64", "call:int32", "call:float32",
+              "call:float64"):
+        if d["label_dtypes"].get(k, 0) == 0:
+            probs.append(f"label dtype {k} never drawn")
+    for k in (2, 3, 4, 11):
+        if d["num_classes"].get(k, 0) == 0:
+            probs.append(f"num_classes = {k} never fitted")
+    for k in ("fits_with_nan_targets", "fits_with_whole_valued_float_targets"):
         if d[k] == 0:
             probs.append(f"{k} = 0")
     if sum(v for k_, v in d["instances"].items() if k_ >= 2) == 0:
